@@ -135,21 +135,28 @@ func (k msgServer) Complete(goCtx context.Context, msg *types.MsgComplete) (*typ
 			return nil, err
 		}
 		k.order.RemoveShard(ctx, oldShard.Id)
-		if len(oldShard.RenewInfos) > 1 {
-			for i := 0; i < len(oldShard.RenewInfos)-1; i++ {
-				order, _ := k.order.GetOrder(ctx, oldShard.RenewInfos[i].OrderId)
-				orderList = append(orderList, &order)
+		// every renewal order of the old shard lists it too (the migration may have been requested
+		// before or after the renewals): each of them is updated exactly once
+		for i := 0; i < len(oldShard.RenewInfos); i++ {
+			renewOrder, found := k.order.GetOrder(ctx, oldShard.RenewInfos[i].OrderId)
+			if !found || renewOrder.Id == order.Id || renewOrder.Id == orderInProgress.Id {
+				continue
 			}
+			orderList = append(orderList, &renewOrder)
 		}
 		for i, order := range orderList {
 			newShards := make([]uint64, 0)
+			hasNewShard := false
 			for _, id := range order.Shards {
+				if id == shard.Id {
+					hasNewShard = true
+				}
 				if id != oldShard.Id {
 					newShards = append(newShards, id)
 				}
 			}
 			// first order has set new shard in shards in migrate
-			if i > 0 {
+			if i > 0 && !hasNewShard {
 				newShards = append(newShards, shard.Id)
 			}
 			order.Shards = newShards
